@@ -75,6 +75,9 @@ type filterCfg struct {
 	Extra      string // additionally registered kinds that must NOT be selected
 	Plain      bool   // servant registered through the context-less interface; one caller at a time
 	Late       bool   // only the first filter of each list is registered before the first calls, the rest after them
+	TwoHop     bool   // the implementation calls on to a second servant with the context it was given
+	IdleMs     int    // > 0: client idle timeout; every call is held in the implementation for SlowMs (longer than that)
+	SlowMs     int
 }
 
 func serverToken(req *requestf.RequestPacket) string { return req.Context[vworld.TokenKey] }
@@ -203,6 +206,8 @@ func install(app *tars.VerifApp, cfg filterCfg, log *filterLog, from int) (expec
 	return
 }
 
+var backWorld *vworld.World
+
 var configs = []filterCfg{
 	{Name: "no-filters"},
 	{Name: "single-both", ServerKind: "single", ClientKind: "single"},
@@ -215,6 +220,8 @@ var configs = []filterCfg{
 	{Name: "plain-servant", ServerKind: "prepost", ClientKind: "prepost", K: 1, Plain: true},
 	{Name: "late-middleware", ServerKind: "middleware", ClientKind: "middleware", K: 3, Late: true},
 	{Name: "late-prepost", ServerKind: "prepost", ClientKind: "prepost", K: 2, Late: true},
+	{Name: "short-client-idle", IdleMs: 1000, SlowMs: 2300},
+	{Name: "two-hop", TwoHop: true},
 }
 
 type valueGen struct {
@@ -279,7 +286,7 @@ type callSpec struct {
 func main() {
 	run = vlib.Start("C01")
 	rogger.SetLevel(rogger.OFF)
-	run.SetRule("filter configurations {none, legacy single client+server, pre/post x1 and x3, middleware x1 and x3, server pre/post only, mixed registrations with shadowed kinds, servant registered through the context-less interface, filters registered after the application's first calls} x callers sharing one generated proxy {1,4,32} x calls drawing: function (12 functions covering scalars signed/unsigned, strings, vector<byte>, nested vectors, maps incl. map of vector of struct, structs with optional/default members, enums, many out parameters, none, void, out before in), argument values from 5 generation modes, request context/status maps (absent, empty, unicode, 1000 entries, random), directive (values + response context/status, tars.Error with code, plain error) and proxy form (plain, WithContext, OneWayWithContext). A case is one call; distinct = distinct (configuration, function, form, outcome kind, argument encoding hash).")
+	run.SetRule("filter configurations {none, legacy single client+server, pre/post x1 and x3, middleware x1 and x3, server pre/post only, mixed registrations with shadowed kinds, servant registered through the context-less interface, filters registered after the application's first calls, client idle timeout shorter than the implementation's run time, implementation calling on to a second servant with its own context} x callers sharing one generated proxy {1,4,32} x calls drawing: function (12 functions covering scalars signed/unsigned, strings, vector<byte>, nested vectors, maps incl. map of vector of struct, structs with optional/default members, enums, many out parameters, none, void, out before in), argument values from 5 generation modes, request context/status maps (absent, empty, unicode, 1000 entries, random), directive (values + response context/status, tars.Error with code, plain error) and proxy form (plain, WithContext, OneWayWithContext). A case is one call; distinct = distinct (configuration, function, form, outcome kind, argument encoding hash).")
 	run.Assume("error code 0 and empty error messages are outside the domain (code 0 is success on the wire, an empty message is replaced by a synthetic text by design)")
 	run.Assume("pass-through: single/middleware filters call next once and return its result, pre/post filters observe and return nil; with several kinds registered only the selected kind (single > middleware > pre/post) must see the call")
 	u, err := sch.LoadUniverse(resreg.TarsFiles)
@@ -306,6 +313,10 @@ func main() {
 		} else {
 			expectEnter = install(app, cfg, flog, 0)
 		}
+		if cfg.IdleMs > 0 {
+			// a connection with a call outstanding is not idle, however long the implementation takes
+			app.ClientConfig().ClientIdleTimeout = time.Duration(cfg.IdleMs) * time.Millisecond
+		}
 		conf := netlab.DefaultServerConf("tcp")
 		conf.MaxInvoke = int32([]int{0, 0, 4}[ci%3])
 		var tap *netlab.Tap
@@ -318,9 +329,26 @@ func main() {
 			continue
 		}
 		w.Servant.Clock = netlab.Tick
+		backWorld = nil
+		if cfg.TwoHop {
+			bconf := netlab.DefaultServerConf("tcp")
+			back, err := vworld.NewWorld(app, bconf, fmt.Sprintf("Verif.C01x%d.BackObj", ci), nil)
+			if err != nil {
+				run.Inconclusive("cannot start the second-hop world: " + err.Error())
+				continue
+			}
+			backWorld = back
+			w.Servant.Forward = func(ctx context.Context, token string) {
+				// the front implementation passes its own context on and names no status of its own
+				_ = back.Proxy.NothingWithContext(ctx, map[string]string{vworld.TokenKey: "fwd-" + token})
+			}
+		}
 		for _, callers := range []int{1, 4, 32} {
 			if cfg.Late && callers == 4 {
 				expectEnter = install(app, cfg, flog, 1)
+			}
+			if cfg.SlowMs > 0 && callers != 4 {
+				continue // four slow calls at once are enough
 			}
 			if cfg.Plain && callers > 1 {
 				break // the context-less servant is told the token of the one call in flight
@@ -328,6 +356,9 @@ func main() {
 			n := perCfg / 3 / callers
 			if n < 2 {
 				n = 2
+			}
+			if cfg.SlowMs > 0 {
+				n = run.Pick(1, 3)
 			}
 			var wg sync.WaitGroup
 			stop := atomic.Bool{}
@@ -422,6 +453,14 @@ func oneCall(w *vworld.World, tap *netlab.Tap, cfg filterCfg, expectEnter []stri
 		d.RspContext = strMap(r, 2+r.Intn(4))
 		d.RspStatus = strMap(r, 2+r.Intn(4))
 	}
+	if cfg.SlowMs > 0 {
+		gate := make(chan struct{})
+		d.Gate = gate
+		time.AfterFunc(time.Duration(cfg.SlowMs)*time.Millisecond, func() { close(gate) })
+		if form == "oneway" {
+			form = "ctx"
+		}
+	}
 	if w.Plain != nil {
 		w.Plain.SetCurrent(token)
 		if form == "oneway" {
@@ -485,6 +524,24 @@ func oneCall(w *vworld.World, tap *netlab.Tap, cfg filterCfg, expectEnter []stri
 	if w.Plain == nil && !mapsEqual(rec.ReqStatus, sentSt) {
 		run.Violation("request-status-changed", form, fmt.Sprintf("%s: request status at the implementation %v, caller passed %v", fn.Name, clipMap(rec.ReqStatus), clipMap(sentSt)), wit(nil))
 		return false
+	}
+	// ---- second hop: the back implementation sees what the front implementation passed, nothing else ----
+	if cfg.TwoHop && backWorld != nil {
+		var brecs []*vworld.Received
+		waitFor(func() bool { brecs = backWorld.Servant.ReceivedFor("fwd-" + token); return len(brecs) >= 1 }, 3*time.Second)
+		backWorld.Servant.Forget("fwd-" + token)
+		if len(brecs) != 1 {
+			run.Violation("not-executed-exactly-once", "second-hop", fmt.Sprintf("%s: the call the implementation made on to the second servant ran %d times", fn.Name, len(brecs)), wit(nil))
+			return false
+		}
+		if !mapsEqual(brecs[0].ReqContext, map[string]string{vworld.TokenKey: "fwd-" + token}) {
+			run.Violation("request-context-changed", "second-hop", fmt.Sprintf("%s: the second servant saw request context %s, its caller passed only the token", fn.Name, clipMap(brecs[0].ReqContext)), wit(nil))
+			return false
+		}
+		if len(brecs[0].ReqStatus) != 0 {
+			run.Violation("request-status-changed", "second-hop", fmt.Sprintf("%s: the second servant saw request status %s, its caller passed none (first-hop status: %s)", fn.Name, clipMap(brecs[0].ReqStatus), clipMap(sentSt)), wit(nil))
+			return false
+		}
 	}
 	// ---- what the caller got ----
 	if form == "oneway" {
